@@ -17,6 +17,7 @@ Definition req_seconds (r : request) : option Z :=
        | MaNone => None
        | MaInt z => Some z
        | MaDelta days seconds => Some (days * 86400 + seconds)%Z
+       | MaBad => None                      (* not a number: such a request is refused, see C07_rejects_bad_max_age *)
        end.
 
 (* the octets the cookie value stands for (a str value must be ASCII for make_cookie; set_cookie encodes
